@@ -131,6 +131,70 @@ pub fn judge_sum(kind: usize, seq: &[[f64; 2]]) -> Verdict {
     }
 }
 
+/// Long sequences for `Iterator::sum`, bounded by DEVIATIONS instead of by length: every length L in 7..=Lmax, every
+/// sequence that is a default term everywhere except at most two positions, each of which holds one of a few special
+/// terms (huge of both signs, tiny, pi, -0).  A summation that is not the plain left fold (chunked / unrolled with a
+/// remainder loop, pairwise, several accumulators) is right for short inputs by construction and differs from the fold
+/// only from some length on, or only for lengths in one residue class of the chunk size.
+pub fn long_sums(r: &mut Runner, base_index: u64) {
+    let quick = r.quick();
+    let rec = r.recorder();
+    let p = |k: i32| 2f64.powi(k);
+    let dflt: [f64; 2] = [0.1, -5.551115123125783e-18];
+    let big = p(107) * (1.0 + p(-52));
+    let special: Vec<[f64; 2]> = vec![[big, big * p(-54) * 1.25], [-big, -big * p(-54) * 1.25], [0.1 * p(-110), 0.1 * p(-164) * 1.25], [core::f64::consts::PI, 1.2246467991473532e-16], [-0.0, 0.0]];
+    assert!(special.iter().all(|w| tfref::big::dd_valid(w[0], w[1])) && tfref::big::dd_valid(dflt[0], dflt[1]));
+    let (l2max, l1max) = if quick { (96usize, 300usize) } else { (200usize, 1000usize) };
+    // work units: (L, first deviating position or none)
+    let mut units: Vec<(usize, Option<usize>)> = vec![];
+    let mut total = 0u64;
+    let k = special.len() as u64;
+    for len in 7..=l1max {
+        units.push((len, None));
+        total += 1;
+        for i in 0..len {
+            units.push((len, Some(i)));
+            total += k;
+            if len <= l2max {
+                total += k * k * (len - 1 - i) as u64;
+            }
+        }
+    }
+    r.notes.push(format!("sum==fold, long sequences bounded by deviations: every length 7..={} with at most 2 (lengths up to {}) or 1 positions deviating from the default term 0.1_dd, each deviation one of {} special terms (+-2^107, 2^-113, pi, -0) = {} sequences x 2 item types x by-value/by-reference", l1max, l2max, k, total));
+    r.add_sample(json!({"call": "sum_tf", "length": 19, "default": [hexf(dflt[0]), hexf(dflt[1])], "deviations": {"3": hexf(big), "17": hexf(-big)}, "family": "long sequences (deviation-bounded)"}));
+    r.par("sum==fold (long sequences, <=2 deviations)", units.len(), 2 * total, |u, l| {
+        let (len, first) = units[u];
+        let mut seq: Vec<[f64; 2]> = vec![dflt; len];
+        let idx = |a: usize, b: usize, c: usize, d: usize| base_index + ((len as u64) << 32) + ((a as u64) << 22) + ((b as u64) << 12) + ((c as u64) << 8) + ((d as u64) << 4);
+        match first {
+            None => {
+                for kind in 0..2 {
+                    rec.record(l, idx(1023, 1023, 0, 0) + kind as u64, judge_sum(kind, &seq));
+                }
+            }
+            Some(i) => {
+                for (si, s1) in special.iter().enumerate() {
+                    seq[i] = *s1;
+                    for kind in 0..2 {
+                        rec.record(l, idx(i, 1023, si, 0) + kind as u64, judge_sum(kind, &seq));
+                    }
+                    if len <= l2max {
+                        for j in (i + 1)..len {
+                            for (sj, s2) in special.iter().enumerate() {
+                                seq[j] = *s2;
+                                for kind in 0..2 {
+                                    rec.record(l, idx(i, j, si, sj) + kind as u64, judge_sum(kind, &seq));
+                                }
+                            }
+                            seq[j] = dflt;
+                        }
+                    }
+                }
+            }
+        }
+    });
+}
+
 pub fn hist_judge(c: &crate::hist::HCall, l: Option<&mut Local>) -> Verdict {
     use crate::api::Op;
     let k = match c.as_op() {
@@ -359,6 +423,7 @@ pub fn run(r: &mut Runner) {
             }
         });
     }
+    long_sums(r, (5u64 << 60));
     {
         // generic stream: both operands with full-size mantissas in both words; the second operand's exponent is
         // tied to the first one's (offsets -3..3) so that the words interact
@@ -405,5 +470,7 @@ pub fn run(r: &mut Runner) {
         let mut groups = crate::hist::binary_groups(&[Op::sub, Op::add], &pairs);
         groups.extend(crate::hist::binary_groups(&[Op::sub_assign, Op::add_assign, Op::sub_f], &pairs[..2]));
         crate::hist::explore(r, "histories: + and - (operand orders, signs, assign forms)", &groups, 3, &hist_judge, 14u64 << 55);
+        // cross-family histories: the same judged calls, preceded by every other public function on the same operands
+        crate::hist::explore_mixed(r, "cross-family histories: any public call, then + and - (operand orders, signs, assign forms)", &groups[..groups.len().min(2)], 2, &hist_judge, (14u64 << 55) + (1u64 << 53));
     }
 }
